@@ -248,6 +248,16 @@ fn get_match_statically_known(
 
     let query_variable = |query: &expr::StaticallyKnownVariableQuery|
     {
+        // A builtin takes precedence over a declared symbol
+        // of the same name when the variable is evaluated.
+        if query.hierarchy_level == 0 &&
+            (query.hierarchy[0] == "$" ||
+            query.hierarchy[0] == "pc" ||
+            asm::resolver::resolve_builtin_fn(&query.hierarchy[0]).is_some())
+        {
+            return false;
+        }
+
         match decls.symbols.try_get_by_name(
             symbol_ctx,
             query.hierarchy_level,
